@@ -33,7 +33,9 @@ EXTRA = {
              '00000000000000000000001.5', '1.' + '0' * 40, '1.E0000000005'] + ['1.E%d' % e for e in range(-330, 331, 15)] +
             ['1.2345678901234567E%d' % e for e in (-300, -100, -1, 0, 1, 100, 300)],
     'STRING': ["'\\X2\\00E9\\X0\\'", "'\\X4\\0001F600\\X0\\'", "'\\X\\E9'", "'\\S\\a'", "'\\PA\\'", "'\\\\'", "''''", "'it''s'", "'\\X2\\00E\\X0\\'",
-               "'\\X2\\00E9'", "'\\X4\\0001F60\\X0\\'", "'\\X\\G9'", "'\\Pa\\'", "'\\N\\'", "'a' 'b'", "'a/*c*/b'", "'#1,(;)'"],
+               "'\\X2\\00E9'", "'\\X4\\0001F60\\X0\\'", "'\\X\\G9'", "'\\Pa\\'", "'\\N\\'", "'a' 'b'", "'a/*c*/b'", "'#1,(;)'",
+               # the ISO 8859 escape at the very beginning, in the middle and at the end of the content, its character an apostrophe or a letter
+               "'\\S\\'y'", "'x\\S\\'y'", "'xy\\S\\''", "'\\S\\''", "'\\S\\ay'", "'\\S\\'\\S\\'y'", "'\\S\\a'", "'ab\\S\\a'"],
     'BINARY': ['"0ABCDEF0123456789"', '"3FFFFFFFF"', '"0' + 'A' * 100 + '"'],
     'ENUM': ['.RED.', '.GREEN.', '.BLUE.', '.red.', '.Red.', 'RED', '.PURPLE.', '.RE.', '.REDD.', '.RED', 'RED.', '..', '.GREEN', '. RED.', '.RED .'],
     'BOOLEAN': ['.T.', '.F.', '.U.', '.TRUE.', '.FALSE.', '.t.', 'T', 'F'],
@@ -263,6 +265,28 @@ def writer_checks(chk, lib):
                               'integer %d written as %r' % (v, out), {'kind': 'INTEGER', 'value': v})
             else:
                 chk.outcome('writer-ok')
+        # the same integers as ELEMENTS of an aggregate (the element nodes have read and write routines of their own): every ordered pair of boundary values
+        edge = sorted({0, 1, -1, 2 ** 31 - 1, 2 ** 31, -2 ** 31, -2 ** 31 - 1, 2 ** 32, 2 ** 32 + 1, -2 ** 32 - 2, 10 ** 12, -10 ** 15, LONG_MAX - 1, -2 ** 63 + 1})
+        for ent in ('O_LIST_INT', 'O_ARRAY_INT'):
+            d.cmd('E %s 0' % ent)
+            lists = [(a, b) for a in edge for b in edge] if ent == 'O_LIST_INT' else [(a, b, a) for a in edge for b in edge[:5]]
+            for vals in lists:
+                tok = '(%s)' % ','.join(str(v) for v in vals)
+                a = d.cmd('R ' + (tok + ',').encode('latin1').hex())
+                f0 = a[0].split()
+                out = bytes.fromhex(a[1].split()[1].decode()) if len(a) > 1 else b''
+                chk.count(states=1, transitions=1)
+                chk.cls('aggregate-element/INTEGER')
+                got = None
+                if re.fullmatch(rb'\(\s*[-+]?\d+(\s*,\s*[-+]?\d+)*\s*\)', out.strip()):
+                    got = tuple(int(x) for x in re.findall(rb'[-+]?\d+', out))
+                if int(f0[1]) < 2:
+                    chk.violation('%s/aggregate-element/INTEGER/rejected-in-grammar' % PID, 'aggregate %s of %s rejected with severity %s' % (tok, ent, f0[1].decode()), {'kind': 'INTEGER', 'entity': ent, 'token': tok})
+                elif got != tuple(vals):
+                    big = any(abs(v) >= 2 ** 31 for v in vals)
+                    chk.violation('%s/aggregate-element/INTEGER/wrong-value/%s' % (PID, 'beyond-32-bits' if big else 'small'), 'aggregate %s of %s written as %r' % (tok, ent, out), {'kind': 'INTEGER', 'entity': ent, 'token': tok})
+                else:
+                    chk.outcome('writer-ok')
         # reals m * 10^e
         mant = [1.0, 1.5, 9.99999999999999, 1.00000000000001, 0.1, 2.0 ** -10, 3.141592653589793, 7.0, 123456789012345.0]
         d.cmd('E O_REAL 0')
@@ -349,6 +373,15 @@ def replay(path):
         print('fresh attribute :', fresh)
         print('after reading %r:' % case['first'], again)
         return 1 if fresh != again else 0
+    if 'entity' in case:
+        d = _W['d']
+        d.cmd('E %s 0' % case['entity'])
+        a = d.cmd('R ' + (case['token'] + ',').encode('latin1').hex())
+        out = bytes.fromhex(a[1].split()[1].decode()) if len(a) > 1 else b''
+        print('input %r -> %r, written back as %r' % (case['token'], a[0], out))
+        want = tuple(int(x) for x in re.findall(r'[-+]?\d+', case['token']))
+        got = tuple(int(x) for x in re.findall(rb'[-+]?\d+', out))
+        return 1 if got != want else 0
     if 'token' in case:
         v, c = run_chunk((case['kind'], [case['token']]))
         v = [x for x in v if x[2].get('context') == case.get('context', x[2].get('context'))]
